@@ -3172,6 +3172,7 @@ func ruleParseWindowCheck(w *World, r *Report, rule, cmdType string) {
 	if f == nil {
 		return
 	}
+	ruleFlagsDistinctTargets(w, r, rule, cmdType)
 	idx := errResultIndex(f)
 	bad := ""
 	n := 0
@@ -3352,4 +3353,76 @@ func ruleParseFloatWidth(w *World, r *Report, rule string) {
 		}
 	}
 	r.Check(bad == "" && n > 0, rule, "strconv.ParseFloat:width-of-the-option", "cmd/flags.go", fmt.Sprintf("%d float32 options, each parsed with bitSize 32", n), bad+": the value is rounded twice and the file gets another xFilesFactor than the one requested")
+}
+
+// ruleFlagsDistinctTargets: in a command's Parse every flag stores into a field of its own — two registrations that
+// share a target (a line copied from its neighbour with only the name changed) leave one option without effect and
+// let the other be overwritten.
+func ruleFlagsDistinctTargets(w *World, r *Report, rule, cmdType string) {
+	f := fn(w.Cmd, cmdType+".Parse")
+	if f == nil {
+		return
+	}
+	targets := map[string][]string{}
+	n := 0
+	fieldOf := func(v ssa.Value) string {
+		// &c.F directly, or a flag.Value literal holding &c.F
+		if _, name, ok := fieldAddrOf(v); ok {
+			if fa, isFA := v.(*ssa.FieldAddr); isFA && fa.X == ssa.Value(f.Params[0]) {
+				return name
+			}
+		}
+		if mi, ok := v.(*ssa.MakeInterface); ok {
+			v = mi.X
+		}
+		al, ok := v.(*ssa.Alloc)
+		if !ok {
+			return ""
+		}
+		found := ""
+		for _, ref := range *al.Referrers() {
+			fa, isFA := ref.(*ssa.FieldAddr)
+			if !isFA {
+				continue
+			}
+			for _, r2 := range *fa.Referrers() {
+				if st, isSt := r2.(*ssa.Store); isSt && st.Addr == ssa.Value(fa) {
+					if inner, isIn := st.Val.(*ssa.FieldAddr); isIn && inner.X == ssa.Value(f.Params[0]) {
+						if _, name, ok2 := fieldAddrOf(inner); ok2 {
+							found = name
+						}
+					}
+				}
+			}
+		}
+		return found
+	}
+	for _, c := range callsIn(f) {
+		sc := c.Common().StaticCallee()
+		if sc == nil || !isMethodFunc(sc, "flag", "FlagSet", sc.Name()) || !(strings.HasSuffix(sc.Name(), "Var")) || len(c.Common().Args) < 3 {
+			continue
+		}
+		name, ok := constString(c.Common().Args[2])
+		if !ok {
+			continue
+		}
+		tgt := fieldOf(c.Common().Args[1])
+		if tgt == "" {
+			continue
+		}
+		n++
+		targets[tgt] = append(targets[tgt], "-"+name)
+	}
+	bad := ""
+	var keys []string
+	for k := range targets {
+		keys = append(keys, k)
+	}
+	sort.Strings(keys)
+	for _, k := range keys {
+		if len(targets[k]) > 1 {
+			bad = "the options " + strings.Join(targets[k], " and ") + " both store into the field " + k
+		}
+	}
+	r.Check(bad == "" && n > 0, rule, cmdType+".Parse:flags-distinct", w.pos(f.Pos()), fmt.Sprintf("%d options, each with a field of its own", n), cmdType+".Parse: "+bad+": one of them overwrites the other and the field the second should set keeps its zero value")
 }
